@@ -415,7 +415,7 @@ pub fn run(args: &Args, out: &mut Out) {
         }
     }
     // diagnostics stream: every family of rejected programs, several seeds each
-    let per_family = args.n.map(|n| (n / 15).max(1)).unwrap_or(if args.thorough() { 60 } else { 8 });
+    let per_family = args.n.map(|n| (n / 15).max(1)).unwrap_or(if args.thorough() { 60 } else { 16 });
     for (fi, family) in diag::FAMILIES.iter().enumerate() {
         for j in 0..per_family {
             let seed = rng.next() >> 16;
@@ -432,9 +432,6 @@ pub fn run(args: &Args, out: &mut Out) {
     for rel in ["typer/tests/type_check_tests.rs", "typer/tests/evaluator_tests.rs"] {
         if let Ok(text) = std::fs::read_to_string(format!("{}/{}", repo, rel)) {
             for (i, src) in diag::extract_rejected_inputs(&text, &["check_fail(", "check_fail_message("]).iter().enumerate() {
-                if !args.thorough() && i % 2 != (args.seed % 2) as usize {
-                    continue;
-                }
                 rejected += 1;
                 let t = if args.thorough() { ALL_TARGETS[i % 4] } else { Tgt::Dx };
                 lines.push(format!("C07.repeat\t{}\tnopipeline\tsrc:{}", t.name(), hex(src.as_bytes())));
